@@ -59,7 +59,7 @@ def _cdiv(x, m):
     return (x + m - 1) / m
 
 
-def layout(V, accel, kind, bits, bw, bh, kw, kh, dil, stride, lut, scalar, upscale, partk, scaled):
+def layout(V, accel, kind, bits, bw, bh, kw, kh, dil, stride, lut, scalar, upscale, partk, scaled, stride_y=None):
     import ethosu.vela.architecture_allocator as aa
     from ethosu.vela.architecture_features import Block
     from ethosu.vela.operation import Kernel, NpuBlockType
@@ -76,7 +76,8 @@ def layout(V, accel, kind, bits, bw, bh, kw, kh, dil, stride, lut, scalar, upsca
     bt = {"conv": NpuBlockType.ConvolutionMxN, "dw": NpuBlockType.ConvolutionDepthWise, "pool": NpuBlockType.Pooling,
           "rsum": NpuBlockType.ReduceSum, "ew": NpuBlockType.ElementWise}[kind]
     rs = {0: resampling_mode.NONE, 1: resampling_mode.NEAREST, 2: resampling_mode.TRANSPOSE}[upscale]
-    kernel = Kernel(kw, kh, stride, stride, dil, dil)
+    sx, sy = stride, (stride if stride_y is None else stride_y)
+    kernel = Kernel(kw, kh, sx, sy, dil, dil)
     ifm_shape = Block(ofm_w, ofm_h, ifm_d)
     ifm2_shape = Block(ofm_w, ofm_h, ifm_d) if (kind == "ew" and not scalar) else None
     with core.shims(*_shims()):
@@ -105,8 +106,8 @@ def layout(V, accel, kind, bits, bw, bh, kw, kh, dil, stride, lut, scalar, upsca
         n = (v - 1) * s + border + nearest
         return -((-n) // ups)  # ceil
 
-    ifm_w = -(-req(bw, stride, min(kaw, 8)) // uw) * uw
-    ifm_h = -(-req(bh, stride, min(kah, 8)) // uh) * uh
+    ifm_w = -(-req(bw, sx, min(kaw, 8)) // uw) * uw
+    ifm_h = -(-req(bh, sy, min(kah, 8)) // uh) * uh
     equal_depth = kind in ("dw", "pool", "ew")
     if equal_depth:
         idepth = L(bd)
@@ -275,7 +276,7 @@ def query(V, accel, kind, bits, quant_mode, lut, scalar, upscale, partk, bw, bh)
     return [("a block the query accepts is accepted by the generator's derivation for the same operation", (rq is None) or (rg is not None))]
 
 
-def search(V, accel, kind, bits, oh, ow, od, kw, kh, lut):
+def search(V, accel, kind, bits, oh, ow, od, kw, kh, lut, sx=1, sy=1, ifm_d=None):
     """find_block_config's result passes try_block_config with the same description (concrete search, symbolic IFM depth)"""
     import ethosu.vela.architecture_allocator as aa
     from ethosu.vela.architecture_features import Block
@@ -286,8 +287,8 @@ def search(V, accel, kind, bits, oh, ow, od, kw, kh, lut):
 
     arch = arch_for(accel)
     bt = {"conv": NpuBlockType.ConvolutionMxN, "dw": NpuBlockType.ConvolutionDepthWise, "pool": NpuBlockType.Pooling, "ew": NpuBlockType.ElementWise}[kind]
-    ifm_d = od if kind != "conv" else 24
-    kernel = Kernel(kw, kh)
+    ifm_d = ifm_d or (od if kind != "conv" else 24)
+    kernel = Kernel(kw, kh, sx, sy)
     cfg = aa.find_block_config(arch, bt, Shape4D(1, oh, ow, od), Shape4D(1, oh, ow, ifm_d), Shape4D(1, oh, ow, ifm_d) if kind == "ew" else None,
                                False, bits, kernel, 2 if lut else 0, True, resampling_mode.NONE)
     if cfg is None:
@@ -329,12 +330,17 @@ def instances(tier, seed):
                                             for partk in ((0, 1) if kind == "conv" else (0,)):
                                                 combos.append(dict(accel=accel, kind=kind, bits=bits, bw=bw, bh=bh, kw=kw, kh=kh, dil=dil, stride=stride,
                                                                    lut=lut, scalar=scalar, upscale=upscale, partk=partk, scaled=1))
+                                                if kind != "ew" and stride == 2 and lut == 0:  # asymmetric strides (2x1 and 1x3)
+                                                    combos.append(dict(accel=accel, kind=kind, bits=bits, bw=bw, bh=bh, kw=kw, kh=kh, dil=dil, stride=2,
+                                                                       lut=lut, scalar=scalar, upscale=upscale, partk=partk, scaled=1, stride_y=1))
+                                                    combos.append(dict(accel=accel, kind=kind, bits=bits, bw=bw, bh=bh, kw=kw, kh=kh, dil=dil, stride=1,
+                                                                       lut=lut, scalar=scalar, upscale=upscale, partk=partk, scaled=1, stride_y=3))
         if quick:
             r.shuffle(combos)
             combos = combos[:260]
         for c in combos:
-            out.append(dict(key="layout/%s/%s%d/b%dx%d/k%dx%dd%d/s%d/l%d_sc%d_u%d_p%d" % (c["accel"], c["kind"], c["bits"], c["bh"], c["bw"], c["kh"], c["kw"],
-                                                                                         c["dil"], c["stride"], c["lut"], c["scalar"], c["upscale"], c["partk"]),
+            out.append(dict(key="layout/%s/%s%d/b%dx%d/k%dx%dd%d/s%dx%s/l%d_sc%d_u%d_p%d" % (c["accel"], c["kind"], c["bits"], c["bh"], c["bw"], c["kh"], c["kw"],
+                                                                                         c["dil"], c["stride"], c.get("stride_y", c["stride"]), c["lut"], c["scalar"], c["upscale"], c["partk"]),
                             fn="layout", params=c))
         for which in ("w", "h", "d"):
             out.append(dict(key="invalid_rejected/%s/%s" % (accel, which), fn="invalid_rejected", params=dict(accel=accel, which=which)))
@@ -357,4 +363,11 @@ def instances(tier, seed):
                 for (oh, ow, od) in shapes:
                     out.append(dict(key="search/%s/%s%d/%dx%dx%d" % (accel, kind, bits, oh, ow, od), fn="search",
                                     params=dict(accel=accel, kind=kind, bits=bits, oh=oh, ow=ow, od=od, kw=3 if kind != "ew" else 1, kh=3 if kind != "ew" else 1, lut=0)))
+        # one-row OFMs with a one-row kernel (the Conv1D SHRAM optimisation) and vertical stride > 1, wide and deep enough to be near the SHRAM limit
+        for kind in ("conv", "dw", "pool"):
+            for bits in (8, 16):
+                for (ow, od, ifd) in ((64, 64, 64), (32, 128, 32), (64, 32, 128)):
+                    for (sx, sy) in ((2, 2), (1, 2), (1, 3), (1, 1)):
+                        out.append(dict(key="search/%s/%s%d/1x%dx%d/k1x1/s%dx%d/i%d" % (accel, kind, bits, ow, od, sx, sy, ifd), fn="search",
+                                        params=dict(accel=accel, kind=kind, bits=bits, oh=1, ow=ow, od=od, kw=1, kh=1, lut=0, sx=sx, sy=sy, ifm_d=ifd)))
     return out
